@@ -46,7 +46,15 @@ func GetMetadataPropertyWithMatchedKey(props map[string]string, keys ...string) 
 
 // DecodeMetadata decodes a component metadata into a struct.
 // This is an extension of mitchellh/mapstructure which also supports decoding durations.
-func DecodeMetadata(input any, result any) error {
+func DecodeMetadata(input any, result any) (err error) {
+	// The conversion and decoding libraries panic on some values (e.g. a typed nil pointer whose String method
+	// has a value receiver): malformed input is reported as an error
+	defer func() {
+		if r := recover(); r != nil {
+			err = fmt.Errorf("failed to decode metadata: %v", r)
+		}
+	}()
+
 	// avoids a common mistake of passing the metadata struct, instead of the properties map
 	// if input is of type struct, cast it to metadata.Base and access the Properties instead
 	v := reflect.ValueOf(input)
